@@ -94,7 +94,7 @@ PROPS = {
                 "length, non-hex rune), UnmarshalBinary} x prior receiver (point spec with recipe). Oracle: acceptance predicate written "
                 "from the statement; accepted => exact point, rejected => error and unchanged receiver value. Non-trivial = every case "
                 "except random strings of a length no decoder accepts. Distinct by case hash. Every case is evaluated twice in a row (verdicts must not depend on the previous input); fixed cases enumerate the word-wise neighbourhood of p as compressed x exhaustively (625 + 6561 strings) and all 256 one-byte strings. endurance: one API function called 2^20+2^10 (quick; slower functions 2^17 or 2^13) or 2^24+2^12 (thorough; slowest 2^18) times in one process from call number 0, every call compared with a pre-computed model result, operands rotating through a table of boundary and ordinary values (rotation offset = shard); all cases non-trivial.",
-        "units": [unit("props", "^TestC03", tier(120000, 8, 900), tier(8000000, 16, 5400, fuzztime=120), fuzz=["FuzzElementDecode"]),
+        "units": [unit("props", "^TestC03", tier(120000, 8, 900), tier(8000000, 16, 5400, fuzztime=120), fuzz=["FuzzElementDecode"], overlay="access"),
                   unit("endure", "^TestEndure$", tier(1, 4, 900), tier(1, 2, 5400), env={"VERIF_ENDURE_PROP": "C03", "VERIF_SHARDS": "1"}, expects=["C03/endurance"])],
         "checks_expected": ["C03/decoders"],
     },
@@ -147,7 +147,7 @@ PROPS = {
                 "(Encode, IsIdentity, IsZero, all Equal pairs, LessOrEqual pairs, curve membership). Non-trivial = history with >= 10 "
                 "steps, >= 1 aliased call and >= 1 operation producing Z != 1. Distinct by hash of the whole history. Action e.repr changes the representation of an element without changing its value (API recipes; re-scaling and coordinate targets in the white-box build).",
         "units": [unit("props", "^TestC10", tier(12000, 8, 900), tier(480000, 16, 5400), overlay="access")],
-        "checks_expected": ["C10/history", "C10/long-lived"],
+        "checks_expected": ["C10/history", "C10/long-lived", "C10/many-objects"],
     },
     "C15": {
         "rule": "cases (call, arguments, layouts): call from 29 API functions in four groups - hashing (msg, DST), decoders (input "
